@@ -35,6 +35,8 @@ def make(case):
     af, nf, truth = MODELS[case['model']]
     npts = case['npts']
     x = np.linspace(0.3, 4.0, npts)
+    if case.get('xint') and case.get('kind') == 'tls' and case.get('xdim', 1) == 1:
+        x[0] = 1.0          # an abscissa that is known as an integer (handed over as `cov_Obs(1, ...)`); the order of the points is immaterial
     yv = nf(np.array(truth), x)
     n = 60
     common = nprng.normal(size=n)
@@ -269,6 +271,9 @@ def check_case(ctx, case):
                 xflat = [o for row in xs for o in row]
             else:
                 xs = [pe.Obs([xi + sx * nprng.normal(size=60)], ['X%d|r1' % i]) for i, xi in enumerate(x)]
+                if case.get('xint'):
+                    # an abscissa known as an external input with an integer mean (`cov_Obs(2, ...)`): its central value is a Python int
+                    xs[0] = pe.cov_Obs(1, sx ** 2, 'XI')
                 [o.gamma_method() for o in xs]
                 xflat = list(xs)
             try:
@@ -350,6 +355,7 @@ def gen_case(ctx):
         case['nens'] = case['npts']
     if kind == 'tls' and model == 'exp2':
         case['model'] = 'exp'
+    case['xint'] = kind == 'tls' and rng.random() < 0.3
     if kind == 'tls' and rng.random() < 0.35:
         case['xdim'] = 2
     if case['correlated'] and rng.random() < 0.6:
